@@ -158,4 +158,13 @@ theorem homed (goal : List (Nat × Nat)) (sh : Nat) (h : goal.any (·.2 == sh) =
   have h2 : e.2 = sh := by simpa using heq
   exact ⟨e.1, by rw [← h2]; exact he⟩
 
+theorem contains_congr (p₁ p₂ : List Nat) (h : ∀ x, x ∈ p₁ ↔ x ∈ p₂) (x : Nat) :
+    p₁.contains x = p₂.contains x := by
+  rw [Bool.eq_iff_iff]
+  simp [h x]
+
+theorem serverLe_congr (p₁ p₂ : List Nat) (h : ∀ x, x ∈ p₁ ↔ x ∈ p₂) : serverLe p₁ = serverLe p₂ := by
+  funext a b
+  simp only [serverLe, sortKey, contains_congr p₁ p₂ h]
+
 end Tahoe.StorageClient
